@@ -39,6 +39,9 @@ typedef struct lltd_iface_state {
 
 static lltd_iface_state *g_iface_states = NULL;
 
+/* Upper bound on observations kept between two Queries (memory stays bounded under a probe flood). */
+#define LLTD_MAX_SEEN_PROBES 1024
+
 #define log_debug(...) lltd_port_log_debug(__VA_ARGS__)
 #define log_warning(...) lltd_port_log_warning(__VA_ARGS__)
 #define log_err(...) lltd_port_log_warning(__VA_ARGS__)
@@ -532,6 +535,10 @@ static void parseProbe(void *inFrame, lltd_iface_state *st, void *iface_ctx) {
 
     bool forUs = compareEthernetAddress(&header->realDestination, &our_mac);
     if (!forUs) {
+        return;
+    }
+    if (st->see_list_count >= LLTD_MAX_SEEN_PROBES) {
+        log_warning("parseProbe: observation list full (%u), dropping probe", (unsigned)st->see_list_count);
         return;
     }
 
